@@ -7,6 +7,7 @@ import (
 	"encoding/binary"
 	"fmt"
 	"net"
+	"os"
 	"time"
 
 	"github.com/cockroachdb/pebble"
@@ -88,6 +89,10 @@ func (b *baseNode) id() enode.ID      { return b.ln.ID() }
 func (b *baseNode) enr() string       { return b.ln.Node().String() }
 
 func quietLogs() {
+	if os.Getenv("VERIF_DEBUG") != "" {
+		log.SetDefault(log.NewLogger(log.NewTerminalHandlerWithLevel(os.Stderr, log.LevelDebug, false)))
+		return
+	}
 	log.SetDefault(log.NewLogger(log.DiscardHandler()))
 }
 
